@@ -514,9 +514,30 @@ def _opt(v) -> str:
     return "(@None N)" if v is None else f"(Some {v}%N)"
 
 
+def _resume_after_close(case) -> bool:
+    """The transport calls resumeProducing() after the channel called loseConnection() on a transport that reports the loss
+    later.  Whether the channel then calls transport.resumeProducing() depends on len(_dataBuffer), and that depends on
+    something the byte-count model does not carry: bytes that followed a `Connection: close` request in the same delivery
+    are DROPPED by LineReceiver (transport.disconnecting) if the response was finished inside process(), but sit in
+    _dataBuffer if it was finished later.  A resumeProducing() on a disconnecting transport does nothing on a real
+    transport, and nothing in the property depends on it; these histories are checked by the oracle only."""
+    if not any(o[0] == "tr" for o in case["ops"]):
+        return False
+    logs, _, _ = _run(case)
+    closed = False
+    for o, l in zip(case["ops"], logs):
+        if closed and o[0] == "tr":
+            return True
+        if any(e in ("CL", "AB") for e in l):
+            closed = True
+    return False
+
+
 def to_coq(case):
     if any(r.get("early") for r in case["reqs"]):
         return None          # the model starts at dispatch; Deferreds handed out in gotLength are checked by the oracle only
+    if not case.get("sync") and _resume_after_close(case):
+        return None          # see _resume_after_close: oracle only
 
     def q(i, r):
         n = len(req_bytes(i, r))
